@@ -137,6 +137,93 @@ theorem bg_in_one_wthh (hh : List Int) (v1 v2 : List Bool) (i j : Nat)
     h1 ▸ hi, h1 ▸ hj, h2 ▸ hi, h2 ▸ hj, List.length_zip, Nat.min_self, lt_min_iff, and_self,
     Option.map_some, List.getElem_zip, hhh, hf1, hf2]
 
+/-! ## The same statements on the rules WIRED BY NAME
+
+`Generated/RulesC17.lean` also contains every rule with its arguments read from an environment under the arguments'
+own names (`«f».w ρ β`) — that is how the dependency graph connects the rules — and `Consistent ρ β`: the environment
+holds under each rule's column name what the rule returns.  The theorems below therefore depend on WHICH columns the
+current sources read: if the priority checks tested another amount than the one that is paid out, they would not hold. -/
+
+section wired
+variable {ρ : String → Rat} {β : String → Bool}
+
+/-- the Kinderzuschlag that is paid, when positive, is the amount after the wealth check -/
+theorem kiz_pos_eq (k : Rat) (kv wkv : Bool) (nr : Rat) (h : 0 < «kinderzuschl_m_bg» k kv wkv nr) :
+    «kinderzuschl_m_bg» k kv wkv nr = k := by
+  unfold «kinderzuschl_m_bg» at h ⊢
+  split at h
+  · simp at h
+  · rename_i hc; simp [hc]
+
+/-- **Kinderzuschlag is only paid where it (alone or with Wohngeld) covers the assessed need** — for the amount that is
+actually PAID (`kinderzuschl_m_bg`), with the columns connected as the current sources connect them. -/
+theorem kiz_only_if_need_covered_wired (hc : Consistent ρ β) (h : 0 < ρ "kinderzuschl_m_bg") :
+    ρ "arbeitsl_geld_2_eink_m_bg" + ρ "kinderzuschl_m_bg" ≥ ρ "arbeitsl_geld_2_regelbedarf_m_bg" ∨
+    ρ "arbeitsl_geld_2_eink_m_bg" + ρ "wohngeld_anspruchshöhe_m_bg" + ρ "kinderzuschl_m_bg" ≥
+      ρ "arbeitsl_geld_2_regelbedarf_m_bg" := by
+  have hk := hc.«kinderzuschl_m_bg»
+  rw [hk] at h ⊢
+  unfold «kinderzuschl_m_bg».w at h ⊢
+  rw [kiz_pos_eq _ _ _ _ h]
+  obtain ⟨hf, _, _⟩ := kiz_pos_requires _ _ _ _ h
+  rcases hf with hf | hf
+  · left
+    rw [hc.«kinderzuschl_vorrang_bg»] at hf
+    simpa [«kinderzuschl_vorrang_bg».w, «kinderzuschl_vorrang_bg»] using hf
+  · right
+    rw [hc.«wohngeld_kinderzuschl_vorrang_bg»] at hf
+    simpa [«wohngeld_kinderzuschl_vorrang_bg».w, «wohngeld_kinderzuschl_vorrang_bg»] using hf
+
+/-- **No needs unit receives ALG II / Bürgergeld together with Kinderzuschlag** (both rules read the same two
+priority flags, by name). -/
+theorem alg2_kiz_exclusive_wired (hc : Consistent ρ β) (h : 0 < ρ "arbeitsl_geld_2_m_bg") :
+    ρ "kinderzuschl_m_bg" = 0 := by
+  rw [hc.«arbeitsl_geld_2_m_bg»] at h
+  rw [hc.«kinderzuschl_m_bg»]
+  exact alg2_kiz_exclusive _ _ _ _ _ _ _ h
+
+/-- **ALG II positive ⇒ the needs unit passes neither priority check**, i.e. its income plus Wohngeld entitlement
+(plus Kinderzuschlag after the wealth check) does not cover the need — the regime selection is by the same amounts
+the other benefits pay. -/
+theorem alg2_pos_need_uncovered_wired (hc : Consistent ρ β) (h : 0 < ρ "arbeitsl_geld_2_m_bg") :
+    ρ "arbeitsl_geld_2_eink_m_bg" + ρ "wohngeld_anspruchshöhe_m_bg" < ρ "arbeitsl_geld_2_regelbedarf_m_bg" ∧
+    ρ "arbeitsl_geld_2_eink_m_bg" + ρ "_kinderzuschl_nach_vermög_check_m_bg" < ρ "arbeitsl_geld_2_regelbedarf_m_bg" := by
+  rw [hc.«arbeitsl_geld_2_m_bg»] at h
+  obtain ⟨h1, h2, _, _, _⟩ := alg2_pos_requires _ _ _ _ _ h
+  rw [hc.«wohngeld_vorrang_bg»] at h1
+  rw [hc.«kinderzuschl_vorrang_bg»] at h2
+  constructor
+  · simpa [«wohngeld_vorrang_bg».w, «wohngeld_vorrang_bg»] using h1
+  · simpa [«kinderzuschl_vorrang_bg».w, «kinderzuschl_vorrang_bg»] using h2
+
+/-- **Grundsicherung im Alter excludes ALG II and Wohngeld, and — with a pensioner in the household — Kinderzuschlag**
+(all four rules read the household flag `erwachsene_alle_rentner_hh` / `anz_rentner_hh` by name). -/
+theorem grunds_excludes_others_wired (hc : Consistent ρ β) (h : 0 < ρ "grunds_im_alter_m_eg")
+    (hnr : 0 < ρ "anz_rentner_hh") :
+    ρ "arbeitsl_geld_2_m_bg" = 0 ∧ ρ "wohngeld_m_wthh" = 0 ∧ ρ "kinderzuschl_m_bg" = 0 := by
+  rw [hc.«grunds_im_alter_m_eg»] at h
+  rw [hc.«arbeitsl_geld_2_m_bg», hc.«wohngeld_m_wthh», hc.«kinderzuschl_m_bg»]
+  exact grunds_excludes_others _ _ _ _ _ _ _ _ _ _ _ h _ _ _ _ _ _ _ _ _ hnr
+
+end wired
+
+/-- non-vacuity of `Consistent` and of the hypotheses of the wired theorems: a needs unit with need 1500, income 1000,
+Wohngeld entitlement 200 and Kinderzuschlag 400 after the wealth check — Kinderzuschlag alone does not cover the need,
+together with Wohngeld it does; it is paid, ALG II is not. -/
+def exρ : String → Rat := fun n =>
+  if n = "arbeitsl_geld_2_regelbedarf_m_bg" then 1500 else if n = "arbeitsl_geld_2_eink_m_bg" then 1000
+  else if n = "wohngeld_anspruchshöhe_m_bg" then 200 else if n = "wohngeld_anspruchshöhe_m_wthh" then 200
+  else if n = "_kinderzuschl_nach_vermög_check_m_bg" then 400 else if n = "anz_erwachsene_hh" then 2
+  else if n = "arbeitsl_geld_2_vermög_freib_bg" then 10000 else if n = "arbeitsl_geld_2_vor_vorrang_m_bg" then 500
+  else if n = "kinderzuschl_m_bg" then 400 else if n = "wohngeld_m_wthh" then 200
+  else if n = "grunds_im_alter_vermög_freib_eg" then 10000 else if n = "anz_personen_eg" then 2 else 0
+def exβ : String → Bool := fun n =>
+  n = "wohngeld_kinderzuschl_vorrang_bg" || n = "wohngeld_kinderzuschl_vorrang_wthh" || n = "erwachsen"
+
+example : Consistent exρ exβ := by
+  constructor <;> decide +kernel
+example : 0 < exρ "kinderzuschl_m_bg" ∧ exρ "arbeitsl_geld_2_m_bg" = 0 := by decide +kernel
+
 /-- non-vacuity: ALG II positive, Kinderzuschlag and Wohngeld zero -/
 example : 0 < «arbeitsl_geld_2_m_bg» 400 false false false false ∧
     «kinderzuschl_m_bg» 100 false false 0 = 0 := by
